@@ -722,6 +722,18 @@ func (c *Conn) WriteMessage(messageType MessageType, data []byte) error {
 		sendCompress := compress
 		// control frames must not be fragmented (RFC 6455 5.5); they are at most 125 bytes.
 		isControl := messageType == PingMessage || messageType == PongMessage || messageType == CloseMessage
+		// a bounded send queue takes a message as a whole or not at all: a message
+		// refused after some of its fragments would leave the peer inside an
+		// unfinished message.
+		if c.sendQueue != nil && c.sendQueueSize > 0 {
+			frames := 1
+			if max := c.Engine.MaxWebsocketFramePayloadSize; !isControl && max > 0 {
+				frames = (len(data) + max - 1) / max
+			}
+			if len(c.sendQueue)+frames > int(c.sendQueueSize) {
+				return ErrMessageSendQuqueIsFull
+			}
+		}
 		for len(data) > 0 {
 			n := len(data)
 			if n > c.Engine.MaxWebsocketFramePayloadSize && !isControl {
